@@ -242,5 +242,6 @@ theorem validStep_sound {M M' : Machine} {obj : HostVal} {c c' : Bytes} (hnd : N
           obtain ⟨k, k', e, s1, st1, st1', hk, a, b, he, hq⟩ := win_cmp (obj := obj) hnd hnd' hd hd' hwok stack st st' hst
           subst he
           exact ⟨k, k', _, s1, st1, st1', hk, a, b, hhi, hq⟩
+        | sqrt lo => simp [windowOk] at hwok
 
 end EvalFilter.OptSim
